@@ -39,17 +39,26 @@ func vfRunCase(t *testing.T, c *vfc20.Case) *vfc20.Run {
 		return res
 	}
 	synctest.Test(t, func(t *testing.T) {
+		vfc20.SettleClock()
 		tg := vfdoubles.NewTarget()
 		tg.SetNow(time.Now().UnixMilli())
 		for _, p := range c.Pre {
 			vfc20.SeedPre(tg, p)
 		}
+		for _, b := range c.Bad {
+			tg.BadRestore[string(vfutil.UnHex(b))] = true
+		}
 		res.Snapshot(tg, c, res.Before)
 		nSeed := tg.LogLen()
 		rc := config.RedisConfig{}
 		cli := conn.VerifNewRedisConn(tg.Dial(), rc)
+		pol, perr := c.RealPol()
+		if perr != nil {
+			res.LoadErr = perr
+			return
+		}
 		rr := &RdbReplay{Client: cli, RedisVersion: c.Ver, EnableRestore: c.Restore, MaxProtoBulkLen: c.MaxBulk,
-			KeyExists: c.Pol, KeyExistsLog: false}
+			KeyExists: pol, KeyExistsLog: c.Log}
 		res.Final = "ok"
 		for _, e := range res.Bins {
 			err := rr.Replay(e)
@@ -77,12 +86,27 @@ func TestVerifC20(t *testing.T) {
 	idx := 0
 	run := func(c *vfc20.Case, src string) {
 		c.Mode = "plain"
-		for i := range c.KVs {
-			c.KVs[i].DB = 0 // Replay itself never selects a DB
+		// Replay itself never selects a DB: one keyspace, one value per key name
+		seenK := map[string]bool{}
+		var kvs []vfc20.KVSpec
+		for _, kv := range c.KVs {
+			kv.DB = 0
+			if !seenK[kv.Key] {
+				seenK[kv.Key] = true
+				kvs = append(kvs, kv)
+			}
 		}
-		for i := range c.Pre {
-			c.Pre[i].DB = 0
+		c.KVs = kvs
+		seenP := map[string]bool{}
+		var pre []vfc20.Pre
+		for _, pr := range c.Pre {
+			pr.DB = 0
+			if !seenP[pr.Key] {
+				seenP[pr.Key] = true
+				pre = append(pre, pr)
+			}
 		}
+		c.Pre = pre
 		r := vfRunCase(t, c)
 		if r.LoadErr != nil {
 			s.Violate("generator-rdb-rejected", r.LoadErr.Error(), c.Replay())
@@ -120,6 +144,12 @@ func TestVerifC20(t *testing.T) {
 	}
 	for _, c := range vfc20.Exhaustive("plain") {
 		run(c, "exhaustive")
+	}
+	for _, c := range vfc20.ExhaustiveBad("plain") {
+		run(c, "exhaustive-bad-data")
+	}
+	for _, c := range vfc20.ExhaustivePolicyStrings("plain") {
+		run(c, "exhaustive-policy-strings")
 	}
 	r := vfutil.NewRand(vfutil.Seed())
 	n := vfutil.Scale(1500, 30000)
